@@ -1,5 +1,6 @@
 import PpciVerif.Proofs.CLower
 import PpciVerif.Proofs.CLayout
+import PpciVerif.Proofs.CAssign
 import PpciVerif.Gen.CTypes
 /-!
 # C01 — the C front-end preserves the meaning of defined-behaviour C programs
@@ -236,5 +237,31 @@ example : Model.CLayout.Legacy.structSize (.cons (.prim .int) (.cons (.prim .cha
     Spec.CLayout.sizeOf (.struct (.cons (.prim .int) (.cons (.prim .char) .nil))) = 8 ∧
     Model.CLayout.Legacy.unionSize (.cons (.arr (.prim .char) 5) (.cons (.prim .int) .nil)) = 5 ∧
     Spec.CLayout.sizeOf (.union (.cons (.arr (.prim .char) 5) (.cons (.prim .int) .nil))) = 8 := by decide
+
+/-! ### assignments: every side effect of the designation is emitted once -/
+
+/-- **Each call written in an assignment expression is emitted exactly once**, whatever the nesting of `= op= ++ --`,
+    array index / `*` / `->` designations, calls and commas (`Model.CAssign.events` is the sequence of loads, stores and
+    calls `gen_binop` / `gen_inplace_mutation` emit; it is compared verbatim with the real emitted function for every
+    assignment operator on every lvalue form on every run).  In particular the designation of the left operand of a
+    compound assignment is evaluated once: `a[ext(k)] *= 3` calls `ext` once. -/
+theorem assignment_calls_once (f : Nat) (e : Model.CAssign.RExp) :
+    (Model.CAssign.events e).count (Model.CAssign.Ev.call f) = Model.CAssign.callsIn f e :=
+  Proofs.CAssign.calls_once f e
+
+/-- **Each assignment, `++` and `--` written in the source stores exactly once** (so `a[i++] += k` increments `i` once) -/
+theorem assignment_stores_once (e : Model.CAssign.RExp) :
+    (Model.CAssign.events e).countP Model.CAssign.Ev.isStore = Model.CAssign.writesIn e :=
+  Proofs.CAssign.stores_once e
+
+/-- non-vacuity: `a[ext(k)] *= 3` — one call, one store, in the order  load k, call, load element, store element -/
+example : Model.CAssign.events (.compound (.index (.bin (.call 0 (.lval (.var 0))) .const)) .const) =
+    [.loadVar 0, .call 0, .loadMem, .storeMem] := by decide
+
+/-- the variant that generates the left operand a second time to read the old value (the seeded change the statement
+    search first missed) calls twice and increments twice: it violates both statements -/
+example : (Model.CAssign.eventsTwice (.compound (.index (.bin (.call 0 (.lval (.var 0))) .const)) .const)).count (.call 0) = 2 ∧
+    (Model.CAssign.eventsTwice (.compound (.index (.bin (.incdec (.var 3)) .const)) .const)).countP Model.CAssign.Ev.isStore = 3 := by
+  decide
 
 end Props.C01
